@@ -378,17 +378,35 @@ Section Proofs.
 End Proofs.
 
 (** ** Meaning of the checker *)
+Lemma closed_on_spec tbl univ :
+  closed_on tbl univ = true <->
+  forall pid t, In (true, pid, t) tbl ->
+  forall t' q, In t' univ -> t' = t ++ q -> gm_table tbl true pid t' = true.
+Proof.
+  unfold closed_on. rewrite forallb_forall. split.
+  - intros H pid t Hin t' q Hu E. specialize (H _ Hin). cbn [fst snd negb orb] in H.
+    rewrite forallb_forall in H. specialize (H _ Hu).
+    apply (strip_prefix_spec N.eqb N.eqb_eq) in E. rewrite E in H. exact H.
+  - intros H [[pm pid] t] Hin. cbn [fst snd]. destruct pm; cbn [negb orb]; [|reflexivity].
+    apply forallb_forall. intros t' Hu.
+    destruct (strip_prefix N.eqb t t') as [q|] eqn:E; [|reflexivity].
+    apply (strip_prefix_spec N.eqb N.eqb_eq) in E. eapply H; eauto.
+Qed.
+
 Lemma okb_spec (c : case) :
   okb c = true <->
   c_panicked c = false /\
-  forall d v p b q, In (d, v) (c_visits c) -> In (p, b) (c_matches c) -> p = d ++ q ->
-                    visit_allows N.eqb v q b = true.
+  (forall d v p b q, In (d, v) (c_visits c) -> In (p, b) (c_matches c) -> p = d ++ q ->
+                     visit_allows N.eqb v q b = true) /\
+  (forall pid t, In (true, pid, t) (c_globs c) ->
+   forall t' q, In t' (flat_map (fun pb => subranges (fst pb)) (c_matches c)) -> t' = t ++ q ->
+                gm_table (c_globs c) true pid t' = true).
 Proof.
-  unfold okb. rewrite andb_true_iff, negb_true_iff, forallb_forall. split.
-  - intros [Hp H]. split; auto. intros d v p b q Hv Hm E.
+  unfold okb. rewrite !andb_true_iff, negb_true_iff, forallb_forall, closed_on_spec. split.
+  - intros [[Hp H] Hc]. repeat split; auto. intros d v p b q Hv Hm E.
     specialize (H _ Hv). rewrite forallb_forall in H. specialize (H _ Hm). cbn [fst snd] in H.
     apply (strip_prefix_spec N.eqb N.eqb_eq) in E. rewrite E in H. exact H.
-  - intros [Hp H]. split; auto. intros [d v] Hv. apply forallb_forall. intros [p b] Hm.
+  - intros (Hp & H & Hc). repeat split; auto. intros [d v] Hv. apply forallb_forall. intros [p b] Hm.
     cbn [fst snd]. destruct (strip_prefix N.eqb d p) as [q|] eqn:E; auto.
     apply (strip_prefix_spec N.eqb N.eqb_eq) in E. eapply H; eauto.
 Qed.
